@@ -504,8 +504,11 @@ class Check:
         h = hashlib.sha1(json.dumps(replay_obj, sort_keys=True).encode()).hexdigest()[:10]
         path = os.path.join(ROOT, "replays", f"{self.prop}-{self.seed}-{h}.json")
         replay_obj = dict(replay_obj, property=self.prop, seed=self.seed, what=what)
-        with open(path, "w") as f:
-            json.dump(replay_obj, f, indent=1, ensure_ascii=True)
+        if len(self.violations) < 200:               # at most 200 replay files per run (all are counted)
+            with open(path, "w") as f:
+                json.dump(replay_obj, f, indent=1, ensure_ascii=True)
+        else:
+            path = self.violations[-1]
         self.violations.append(path)
         if len(self.violations) <= 8:
             log(f"VIOLATION property={self.prop} replay={path}")
